@@ -358,20 +358,39 @@ Proof.
   repeat (split; [congruence|]). split; [exact K7|]. split; congruence.
 Qed.
 
-(** ---- the invariant of mergeScopeDirectives ---- *)
+(** the objects mergeScopeDirectives frees: a Scope directive or a child of one *)
+Definition scoped (s : pstate) (g : ghost) (y : N) : Prop :=
+  (exists yo, tget (p_tree s) y = Some yo /\ o_opcode yo = aml_pOpScope) \/
+  (exists d dobj, In y (kids g d) /\ tget (p_tree s) d = Some dobj /\ o_opcode dobj = aml_pOpScope).
+
+(** ---- the invariant of mergeScopeDirectives, with an abstract part [KI] that survives a move between two ScopeBlocks and
+    the freeing of a childless scoped object ---- *)
+Section MergeK.
+Variable KI : pstate -> ghost -> Prop.
+Hypothesis K_counters : forall s g a b c, KI s g -> KI (with_counters s a b c) g.
+Hypothesis K_move : forall s g c m tg (t2 : T) g2, TI s g -> KI s g -> In m (kids g c) -> is_sb s c -> is_sb s tg ->
+  pframe (p_tree s) t2 -> shape_eq g g2 ->
+  (forall q, kids g2 q = (if q =? c then remove1 m (kids g c) else kids g q) ++ (if q =? tg then [m] else [])) ->
+  KI (with_tree s t2) g2.
+Hypothesis K_free : forall s g y (t' : T) g', TI s g -> KI s g -> glive g y -> kids g y = [] -> scoped s g y ->
+  fframe y (p_tree s) t' -> (forall p, kids g' p = remove1 y (kids g p)) ->
+  (forall z, glive g' z <-> glive g z /\ z <> y) -> (forall o', tget t' y = Some o' -> o_opcode o' = opFreed) ->
+  KI (with_tree s t') g'.
+
 Record MI (X : N -> Prop) (s : pstate) (g : ghost) : Prop := mkMI {
   mi_TI : TI s g;
   mi_live0 : glive g 0;
   mi_root0 : groot g 0;
   mi_sb0 : is_sb s 0;
-  mi_ty : tyS X (p_tables s) (p_handle s) (p_tree s) g
+  mi_ty : tyS X (p_tables s) (p_handle s) (p_tree s) g;
+  mi_K : KI s g
 }.
 
 Lemma MI_counters X s g a b c : MI X s g -> MI X (with_counters s a b c) g.
-Proof. intros [A B C D E]. constructor; auto. apply TI_counters. exact A. Qed.
+Proof. intros [A B C D E F]. constructor; auto. apply TI_counters. exact A. Qed.
 
 Lemma MI_weaken (X X' : N -> Prop) s g : (forall y, X y -> X' y) -> MI X s g -> MI X' s g.
-Proof. intros Hs [A B C D E]. constructor; auto. eapply tyS_weaken; eauto. Qed.
+Proof. intros Hs [A B C D E F]. constructor; auto. eapply tyS_weaken; eauto. Qed.
 
 Lemma is_sb_pframe s (t' : T) y : is_sb s y -> pframe (p_tree s) t' -> is_sb (with_tree s t') y.
 Proof. intros (o & Ho & E) Hpf. destruct (proj2 Hpf _ _ Ho) as (o' & Ho' & E1 & _). exists o'. split; [exact Ho'|congruence]. Qed.
@@ -388,18 +407,19 @@ Lemma MI_move {RT} P X c m tg (k : M RT) s g (Q : RT -> pstate -> Prop) :
      wp P k (with_tree s t2) Q) ->
   wp P (detachM (Some c) (Some m) ;;; appendM (Some tg) m ;;; k) s Q.
 Proof.
-  intros [A B C D E] Hin Hltg Hnd Hc Htg K.
+  intros [A B C D E F] Hin Hltg Hnd Hc Htg K0.
   eapply (move_gen P c m tg k s g); [exact A|exact Hin|exact Hltg|exact Hnd|].
-  intros t2 g2 H2 S2 R2 _ Hev Hpf Hk. apply (K t2 g2); auto.
+  intros t2 g2 H2 S2 R2 _ Hev Hpf Hk. apply (K0 t2 g2); auto.
   constructor; auto.
   - apply (shape_eq_glive _ _ _ S2). exact B.
   - apply (R2 0 B). exact C.
   - apply is_sb_pframe; auto.
   - eapply tyS_move; eauto.
+  - eapply (K_move s g c m tg t2 g2); eauto.
 Qed.
 
 Lemma MI_free P X y s g (Q : unit -> pstate -> Prop) :
-  MI X s g -> glive g y -> kids g y = [] -> y <> 0 ->
+  MI X s g -> glive g y -> kids g y = [] -> y <> 0 -> scoped s g y ->
   (forall x xo, tget (p_tree s) x = Some xo -> o_opcode xo = aml_pOpScope -> o_tableHandle xo = p_handle s -> ~ X x -> x <> y -> ~ In y (kids g x)) ->
   (forall t' g', MI X (with_tree s t') g' -> (forall p, kids g' p = remove1 y (kids g p)) ->
      (forall z, glive g' z <-> glive g z /\ z <> y) ->
@@ -408,18 +428,19 @@ Lemma MI_free P X y s g (Q : unit -> pstate -> Prop) :
      Q tt (with_tree s t')) ->
   wp P (freeM y) s Q.
 Proof.
-  intros [A B C D E] Hl Hk Hy0 Hpar K.
+  intros [A B C D E FK] Hl Hk Hy0 Hsc Hpar K0.
   apply (free_step P y s g Q A Hl Hk). intros t' g' H' Hk' Hl' Hev Hff.
   assert (Hfr : forall o', tget t' y = Some o' -> o_opcode o' = opFreed).
   { intros o' Ho'. destruct (N.eq_dec (o_opcode o') opFreed) as [E0|E0]; [exact E0|exfalso].
     assert (Hly : glive g' y) by (apply (R_live_glive _ _ (ti_R _ _ H')); exists o'; auto).
     apply Hl' in Hly. destruct Hly as (_ & F). apply F. reflexivity. }
-  apply (K t' g'); auto.
+  apply (K0 t' g'); auto.
   constructor; auto.
   - apply Hl'. split; auto.
   - intros p Hin. rewrite Hk' in Hin. apply remove1_In in Hin. apply (C p Hin).
   - apply (is_sb_fframe s t' y 0); auto.
   - eapply tyS_free; eauto.
+  - eapply (K_free s g y t' g'); eauto.
 Qed.
 
 (** ---- moveContents: all children of [c] go to the end of [tg] ---- *)
@@ -532,7 +553,7 @@ Qed.
 
 Lemma MI_unX x s g : MI (fun y => y = x) s g -> (forall o, tget (p_tree s) x = Some o -> o_opcode o = opFreed) -> MI NoX s g.
 Proof.
-  intros [A B C D E] Hfr. constructor; auto. intros x' xo Hg Hop Hh _. apply (E x' xo Hg Hop Hh).
+  intros [A B C D E F] Hfr. constructor; auto. intros x' xo Hg Hop Hh _. apply (E x' xo Hg Hop Hh).
   intros ->. specialize (Hfr _ Hg). rewrite Hop in Hfr. discriminate.
 Qed.
 
@@ -655,18 +676,22 @@ Proof.
   assert (Hkx2 : kids g2 x = [n; c]) by (rewrite Hko2; auto).
   assert (Hkn2 : kids g2 n = []) by (rewrite Hko2; auto).
   (* free the name *)
-  apply wp_bind. apply (MI_free True X n s2 g2); [exact H2| | exact Hkn2 | | |].
+  destruct (proj2 Hpf2 _ _ Hxo1) as (xo2 & Hxo2 & Exo2 & _).
+  apply wp_bind. apply (MI_free True X n s2 g2); [exact H2| | exact Hkn2 | | | |].
   { apply (shape_eq_glive _ _ _ S2). exact Hln. }
   { intros ->. apply (mi_root0 _ _ _ H1 x). exact Hin_n. }
+  { right. exists x, xo2. split; [rewrite Hkx2; left; reflexivity|]. split; [exact Hxo2|congruence]. }
   { intros x' xo' _ _ _ HX' _ Hin'. apply HX'. eapply (R_parent_unique _ _ HR2); [exact Hin'|]. rewrite Hkx2. left. reflexivity. }
   intros t3 g3 H3 Hk3 Hl3 Hev3 Hff3 _.
   pose proof (mi_TI _ _ _ H3) as HT3. pose proof (ti_R _ _ HT3) as HR3.
   assert (Hkx3 : kids g3 x = [c]) by (rewrite Hk3, Hkx2; cbn [remove1]; rewrite N.eqb_refl; reflexivity).
   assert (Hkc3 : kids g3 c = []) by (rewrite Hk3, Hkc2; reflexivity).
   (* free the block *)
-  apply wp_bind. apply (MI_free True X c (with_tree s2 t3) g3); [exact H3| | exact Hkc3 | | |].
+  destruct (proj2 Hff3 _ _ Hxo2) as (xo3 & Hxo3 & _ & Fxo3). destruct (Fxo3 Hxn_ne) as (Exo3 & _).
+  apply wp_bind. apply (MI_free True X c (with_tree s2 t3) g3); [exact H3| | exact Hkc3 | | | |].
   { apply Hl3. split; [apply (shape_eq_glive _ _ _ S2); exact Hlc|]. intros E. apply Hnc_ne. symmetry. exact E. }
   { intros ->. apply (mi_root0 _ _ _ H1 x). exact Hin_c. }
+  { right. exists x, xo3. split; [rewrite Hkx3; left; reflexivity|]. split; [exact Hxo3|congruence]. }
   { intros x' xo' _ _ _ HX' _ Hin'. apply HX'. eapply (R_parent_unique _ _ HR3); [exact Hin'|]. rewrite Hkx3. left. reflexivity. }
   intros t4 g4 H4 Hk4 Hl4 Hev4 Hff4 _.
   pose proof (mi_TI _ _ _ H4) as HT4. pose proof (ti_R _ _ HT4) as HR4.
@@ -680,7 +705,8 @@ Proof.
   destruct Hxo4 as (xo4 & Hxo4 & Eop4).
   assert (Hlx4 : glive g4 x).
   { apply Hl4. split; [|exact Hxc_ne]. apply Hl3. split; [|exact Hxn_ne]. apply (shape_eq_glive _ _ _ S2). exact Hl. }
-  apply wp_bind. apply (MI_free True X x (with_tree (with_tree s2 t3) t4) g4); [exact H4| exact Hlx4 | exact Hkx4 | exact Hx0 | |].
+  apply wp_bind. apply (MI_free True X x (with_tree (with_tree s2 t3) t4) g4); [exact H4| exact Hlx4 | exact Hkx4 | exact Hx0 | | |].
+  { left. exists xo4. split; [exact Hxo4|exact Eop4]. }
   { intros x' xo' Hx' Hop' Hh' HX' _ Hin'.
     destruct (mi_ty _ _ _ H4 x' xo' Hx' Hop' Hh' HX') as (_ & _ & n' & c' & no' & co' & tbl' & sl' & J1 & _ & J3 & _ & J5 & _ & _ & J8 & J9).
     rewrite J1 in Hin'. cbn [In] in Hin'. destruct Hin' as [E|[E|[]]]; subst.
@@ -721,6 +747,7 @@ Proof.
   - split; intro; intros; cbn [mergeScopeDirectives mergeScope_loop]; apply wp_outOfFuel; exact I.
   - split; [apply step_M; exact IHl|apply step_ML; assumption].
 Qed.
+End MergeK.
 
 (** mergeScopeDirectives from any live object: never panics, keeps the invariants *)
 Theorem mergeScopeDirectives_never_panics : forall fuel x s g,
@@ -756,11 +783,13 @@ Theorem mergeScopeDirectives_never_panics : forall fuel x s g,
   end.
 Proof.
   intros fuel x s g HR Hi Hp H0 Hr0 Hsb Hty Hl.
-  assert (HM : MI NoX s g).
-  { constructor; auto; [constructor; auto|]. intros d dobj Hd Hop Hh _. exact (Hty d dobj Hd Hop Hh). }
-  pose proof (proj1 (merge_all fuel) x s g HM Hl) as W. unfold wp in W.
+  set (K0 := fun (_ : pstate) (_ : ghost) => True).
+  assert (HM : MI K0 NoX s g).
+  { constructor; auto; [constructor; auto| |exact I]. intros d dobj Hd Hop Hh _. exact (Hty d dobj Hd Hop Hh). }
+  pose proof (proj1 (merge_all K0 (fun _ _ _ _ _ _ => I) (fun _ _ _ _ _ _ _ _ _ _ _ _ _ _ _ => I)
+                                  (fun _ _ _ _ _ _ _ _ _ _ _ _ _ _ => I) fuel) x s g HM Hl) as W. unfold wp in W.
   destruct (mergeScopeDirectives fuel x s) as [[r s']| |]; auto.
-  destruct W as (g' & [[A B C] D E F G] & Ev). exists g'.
+  destruct W as (g' & [[A B C] D E F G _] & Ev). exists g'.
   repeat (split; [assumption|]). split; [|split; [apply (ev_live _ _ _ Ev)|apply (ev_keep _ _ _ Ev)]].
   intros d dobj Hd Hop Hh. exact (G d dobj Hd Hop Hh (fun K => K)).
 Qed.
